@@ -43,6 +43,49 @@ def builders(prog):
             continue
         stores = [(t, st) for t, st, how in kernels.stores(f.node) if isinstance(t, ast.Subscript) and root_name(t) == table]
         out[f] = dict(table=table, fill=fill, stores=stores)
+    # wrappers: every value the function returns is the table a builder made for the same argument - directly, through a local,
+    # through a module-level table it was kept in (a memo: its soundness is the hidden-state clause's business), or a copy of it
+    def is_copier(g):
+        rets = [n for n in ast.walk(g.node) if isinstance(n, ast.Return)]
+        ps = [p_ for p_ in g.params if p_ != 'self']
+        return len(ps) == 1 and len(rets) == 1 and rets[0].value is not None and norm(rets[0].value).replace(' ', '') in (f'{ps[0]}.copy()', f'_np.copy({ps[0]})', f'np.copy({ps[0]})', f'_np.array({ps[0]})')
+    for _ in range(2):
+        for f in prog.funcs:
+            if f in out or f.parent is not None:
+                continue
+            made, holders = None, set()
+            for n in ast.walk(f.node):
+                if isinstance(n, ast.Call) and isinstance(n.func, (ast.Name, ast.Attribute)):
+                    r = prog.resolve(f.mod, n.func)
+                    if r and r[0] == 'func' and r[1] in out and len(n.args) == 1 and isinstance(n.args[0], ast.Name) and n.args[0].id in f.params:
+                        made = r[1]
+                        holders.add(norm(n))
+            if made is None:
+                continue
+            for _i in range(3):
+                for n in ast.walk(f.node):
+                    if isinstance(n, ast.Assign):
+                        v = n.value
+                        vt = norm(v)
+                        via_get = isinstance(v, ast.Call) and isinstance(v.func, ast.Attribute) and v.func.attr == 'get' and any(h.startswith(norm(v.func.value) + '[') for h in holders)
+                        if vt in holders or via_get:
+                            holders |= {norm(t) for t in n.targets}
+
+            def is_table(e):
+                if norm(e) in holders:
+                    return True
+                if isinstance(e, ast.Call) and isinstance(e.func, ast.Attribute) and e.func.attr == 'copy' and not e.args and norm(e.func.value) in holders:
+                    return True
+                if isinstance(e, ast.Call) and len(e.args) == 1 and norm(e.args[0]) in holders and isinstance(e.func, (ast.Name, ast.Attribute)):
+                    if norm(e.func).split('.')[-1] in ('copy', 'array') and norm(e.func).split('.')[0] in ('_np', 'np', 'numpy'):
+                        return True
+                    r = prog.resolve(f.mod, e.func)
+                    return bool(r and r[0] == 'func' and is_copier(r[1]))
+                return False
+            rets = [n for n in ast.walk(f.node) if isinstance(n, ast.Return)]
+            if rets and all(r_.value is not None and is_table(r_.value) for r_ in rets):
+                out[f] = dict(out[made])
+                out[f]['wrapper_of'] = made
     return out
 
 
